@@ -3,7 +3,7 @@ CONSTANTS
   K = 1
   AvailChoices <- MCAvailAll
   CorruptChoices <- MCCorrupt1
-  Gran = "cell"
+  Gran = "quadrant"
   AllowCancel = TRUE
 INVARIANTS TypeOK OkIsFullAndCommitted ByzOnlyForBadLine NoByzOnGoodSquare SquareFromRequested PrintCase
 PROPERTIES NoRequestAfterFinish OkSquareStable OutcomeFinal
